@@ -333,26 +333,9 @@ func (o OrderedCollectionPage) Equals(with Item) bool {
 			}
 			return nil
 		})
+		// NOTE: current, first and last have been compared with the rest of the ordered collection above
 		if w.PartOf != nil {
 			if !ItemsEqual(o.PartOf, w.PartOf) {
-				result = false
-				return nil
-			}
-		}
-		if w.Current != nil {
-			if !ItemsEqual(o.Current, w.Current) {
-				result = false
-				return nil
-			}
-		}
-		if w.First != nil {
-			if !ItemsEqual(o.First, w.First) {
-				result = false
-				return nil
-			}
-		}
-		if w.Last != nil {
-			if !ItemsEqual(o.Last, w.Last) {
 				result = false
 				return nil
 			}
